@@ -134,9 +134,12 @@ ListEncs == IF BigList THEN {e \in Encs : e.asz \in {4, 8} /\ e.ver \in {2, 5}}
             ELSE {[ver |-> 4, fmt |-> 32, asz |-> 8, le |-> TRUE], [ver |-> 5, fmt |-> 64, asz |-> 4, le |-> FALSE]}
 
 (* ---- names with and without normalisation rules ------------------------- *)
-NormNames == (1..140) \cup {8193 (*MIPS_fde*), 8449 (*sf_names*), 8497 (*GNU_dwo_id*), 8498 (*GNU_ranges_base*),
-                            8499 (*GNU_addr_base*), 8496 (*GNU_dwo_name*)}
-NormForms == {"data1", "data2", "data4", "data8", "udata", "sdata", "sec_offset", "block1", "exprloc", "string", "ref4", "flag"}
+(* every standard attribute code up to DW_AT_loclists_base (0x8c) and the vendor names with a meaning of their own *)
+NormNames == (1..140) \cup {8193 (*MIPS_fde*), 8199 (*MIPS_linkage_name*), 8449 (*sf_names*), 8209 (*GNU_call_site_value*),
+                            8473 (*GNU_macros*), 8496 (*GNU_dwo_name*), 8497 (*GNU_dwo_id*), 8498 (*GNU_ranges_base*),
+                            8499 (*GNU_addr_base*), 8500 (*GNU_pubnames*), 8503 (*GNU_locviews*)}
+(* every form (below DW_FORM_indirect only through the "indirect" sub-model; the unassigned code cannot be decoded) *)
+NormForms == {f.nm : f \in {g \in FormTable : g.sz \notin {"indirect", "unknown"}}}
 NormPayloads(c, enc) ==
     LET f == FormOf(c) IN
     CASE f.nm = "data1" -> {[val |-> <<255>>], [val |-> <<128>>]}
